@@ -38,7 +38,8 @@ Inductive ev :=
 | EPEmpty
 | EEof                        (* the peer shuts its sending half *)
 | EClose | ECloseErr          (* local: close() / close_with_error(not-allowed) *)
-| EDrop.                      (* local: the handle is dropped *)
+| EDrop                       (* local: the handle is dropped *)
+| EAbort.                     (* local: a pending close()/close_with_error() is cancelled, dropping the handle *)
 
 Inductive res := ROk | RErr (k : kind).
 
@@ -66,7 +67,7 @@ Inductive cstate :=
 | SDead.                                        (* open failed: no handle exists *)
 
 Definition is_peer (e : ev) : bool :=
-  match e with EOpen | EClose | ECloseErr | EDrop => false | _ => true end.
+  match e with EOpen | EClose | ECloseErr | EDrop | EAbort => false | _ => true end.
 
 (** the engine has stopped with [r]: tell the waiting close call, if any *)
 Definition finish (w : waiter) (r : res) : cstate * list obs :=
@@ -116,17 +117,20 @@ Definition step1 (s : cstate) (e : ev) : cstate * list obs :=
   | SCloseSent w, EPClose false => finish w ROk
   | SCloseSent w, EPClose true => finish w (RErr KRemoteClosedWithError)
   | SCloseSent w, EEof => finish w (RErr KTransportError)
+  | SCloseSent WCloseCall, EAbort => (SCloseSent WGone, [])
   | SCloseSent w, _ => (SCloseSent w, [])          (* in-flight frames are not errors *)
   (* ---- discarding ---- *)
   | SDiscardLocal w, EPClose false => finish w ROk
   | SDiscardLocal w, EPClose true => finish w (RErr KRemoteClosedWithError)
   | SDiscardLocal w, EEof => finish w ROk
+  | SDiscardLocal WCloseCall, EAbort => (SDiscardLocal WGone, [])
   | SDiscardLocal w, _ => (SDiscardLocal w, [])
   | SDiscardProto k w, EPClose false => finish w (RErr k)
   | SDiscardProto k w, EPClose true => finish w (RErr KRemoteClosedWithError)
   | SDiscardProto k w, EEof => finish w (RErr KTransportError)
   | SDiscardProto k WHandle, (EClose | ECloseErr) => (SDiscardProto k WCloseCall, [])   (* the call waits for the end *)
   | SDiscardProto k WHandle, EDrop => (SDiscardProto k WGone, [])
+  | SDiscardProto k WCloseCall, EAbort => (SDiscardProto k WGone, [])
   | SDiscardProto k w, _ => (SDiscardProto k w, [])
   (* ---- stopped ---- *)
   | SEnded r HLive, (EClose | ECloseErr) => (SEnded r HReported, [DClose r])
